@@ -1217,10 +1217,11 @@ impl QueryPlan {
                     QueryPlan::compile_expr(lhs, filter, columns, column_len, planner)?;
                 let (plan_rhs, type_rhs) =
                     QueryPlan::compile_expr(rhs, filter, columns, column_len, planner)?;
+                // NULL AND x is never true: the conjunction is as NULL as its NULL operand
                 if type_lhs.decoded == BasicType::Null {
-                    return Ok((plan_rhs, type_rhs));
-                } else if type_rhs.decoded == BasicType::Null {
                     return Ok((plan_lhs, type_lhs));
+                } else if type_rhs.decoded == BasicType::Null {
+                    return Ok((plan_rhs, type_rhs));
                 }
                 if type_lhs.decoded != BasicType::Boolean || type_rhs.decoded != BasicType::Boolean
                 {
